@@ -478,7 +478,7 @@ def selfcheck_case(b, E2):
 READ_ALLOWED = ()  # valid-by-construction programs: every refusal is reported (bucketed by type)
 
 
-FLAGS = ['nested_if', 'inblock_reassign', 'block_cond_dep', 'inblock_dep', 'error_reassigns_pk_var', 'mod', 'pfunc_in_cond', 'omega_values']
+FLAGS = ['nested_if', 'inblock_reassign', 'block_cond_dep', 'inblock_dep', 'error_reassigns_pk_var', 'mod', 'pfunc_in_cond', 'omega_values', 'neg_literal_pow', 'nested_pfunc', 'rel_shared_symbol']
 
 
 def run_case(spec):
@@ -564,6 +564,7 @@ def run_case_inner(spec):
             break
         theta, eta, eps, data, amounts = sample_inputs(spec, b, k)
         # reference
+        R.NONFINITE[0] = 0
         try:
             env = R.Env(theta=theta, eta=eta, eps=eps, data=data, amounts=amounts)
             if b.kind == 'pred':
@@ -593,7 +594,9 @@ def run_case_inner(spec):
             continue
         ref = env.vars
         check_names = sorted(n for n in b.defs_end if n in ref)
-        if margin < 1e-6 or not all(finite(ref[n]) for n in check_names):
+        if margin < 1e-6 or R.NONFINITE[0] or not all(finite(ref[n]) for n in check_names):
+            # a non-finite intermediate (LOG/SQRT outside its domain, division by zero, overflow) is an
+            # NM-TRAN run-time error, not a defined value: resample the inputs
             continue
         # pharmpy side
         penv = dict(data)
@@ -629,7 +632,11 @@ def run_case_inner(spec):
                 except Undefined as u:
                     raise Violation(f'ode:undefined-symbol:ADVAN{b.advan}-TRANS{b.trans}', detail=f'd{cname}/dt uses {u} which nothing defines\n{b.text}')
                 d = R.rhs_from_rates(rates, amounts, ncomp)
-                if not close(val, d[num], rtol=1e-9, atol=1e-12):
+                # TRANS5/6 derive the micro constants through differences of nearly equal terms:
+                # algebraically equal evaluation orders differ by cancellation error (stated tolerance 1e-6)
+                rt = 1e-6 if b.trans in (5, 6) else 1e-9
+                scale_ = max(abs(x) for x in d.values())
+                if not close(val, d[num], rtol=rt, atol=rt * scale_):
                     raise Violation(f'ode:rhs:ADVAN{b.advan}-TRANS{b.trans}', observed=val, expected=d[num], detail=f'd/dt of compartment {num} ({cname})\n{b.text}')
             if len(ode.eqs) != ncomp:
                 raise Violation('ode:compartment-count', observed=len(ode.eqs), expected=ncomp)
@@ -690,6 +697,6 @@ def _value_clause(n, b, feats):
 
 
 SUBCHECKS = [
-    SubCheck('pred', lambda: PRED_SPEC, run_case, quick=600, thorough=15000),
-    SubCheck('advan', lambda: ADVAN_SPEC, run_case, quick=600, thorough=15000),
+    SubCheck('pred', lambda: PRED_SPEC, run_case, quick=220, thorough=5000, quick_time=240, thorough_time=3000),
+    SubCheck('advan', lambda: ADVAN_SPEC, run_case, quick=220, thorough=5000, quick_time=240, thorough_time=3000),
 ]
